@@ -151,9 +151,8 @@ class BinningBase:
         ----------
         rtol, atol : numpy tolerance parameters
         """
-        return np.allclose(
-            np.diff(self.bins[1] - self.bins[0]), 0.0, rtol=rtol, atol=atol
-        )
+        widths = self.bins[:, 1] - self.bins[:, 0]
+        return bool(np.allclose(np.diff(widths), 0.0, rtol=rtol, atol=atol))
 
     def is_consecutive(self, rtol: float = 1.0e-5, atol: float = 1.0e-8) -> bool:
         """Whether all bins are in a growing order.
